@@ -270,13 +270,23 @@ class Cli:
                 name, value = item.split("=", 1)
                 self.model_generator_kwargs[name] = value
 
-        # Whole key should match: group keeps top-level alternation (`a|b`) inside the anchors, \Z does not accept trailing newline
-        self.dict_keys_regex = [re.compile(rf"^(?:{r})\Z") for r in dict_keys_regex] if dict_keys_regex else ()
+        self.dict_keys_regex = [self._anchor_regex(r) for r in dict_keys_regex] if dict_keys_regex else ()
         self.dict_keys_fields = dict_keys_fields or ()
         if preamble:
             preamble = preamble.strip()
         self.preamble = preamble or None
         self.initialized = True
+
+    @staticmethod
+    def _anchor_regex(pattern: str) -> 're.Pattern':
+        """
+        Compile pattern so the whole key should match: group keeps top-level alternation (`a|b`) inside the anchors,
+        \\Z does not accept trailing newline. Global inline flags (i.e. `(?i)`) should stay at the start of the expression
+        """
+        flags, pattern = re.match(r"((?:\(\?[aiLmsux]+\))*)(.*)", pattern, flags=re.DOTALL).groups()
+        # In verbose mode pattern could end with a comment
+        end = "\n" if "x" in flags else ""
+        return re.compile(rf"{flags}^(?:{pattern}{end})\Z")
 
     @classmethod
     def _create_argparser(cls) -> argparse.ArgumentParser:
